@@ -388,6 +388,14 @@ func runC05(ctx *Ctx) error {
 	if err := corrCodec(ctx, "C05"); err != nil {
 		return err
 	}
+	// the declarations every generated signature is built from: CombineOperationParameters vs Model/Combine.lean,
+	// also over the operations of one path item in turn (nothing carries over, the arguments are not modified)
+	if err := c03CombineCorr(ctx, ctx.N(600, 6000)); err != nil {
+		return err
+	}
+	if err := c05NamedParams(ctx); err != nil {
+		return err
+	}
 	defaults, sites, notes, err := c05Tables(ctx)
 	if err != nil {
 		return err
@@ -590,4 +598,103 @@ func c05Shapes() []PShape {
 		out = append(out, s)
 	}
 	return out
+}
+
+// c05NamedParams: parameters whose name is not a Go identifier spelling (user_id, item-ids, the keyword type). The styles
+// that put the name on the wire (matrix in the path, form in the query and in a cookie) must carry the name of the
+// document, not the name of the Go argument or field.
+func c05NamedParams(ctx *Ctx) error {
+	kit, err := NewRunKit(ctx.Work + "/c05named")
+	if err != nil {
+		return err
+	}
+	defer kit.Close()
+	str := J{"type": "string"}
+	arr := J{"type": "array", "items": J{"type": "integer"}}
+	p := func(n, in, style string, explode bool, sch J) J {
+		return J{"name": n, "in": in, "required": true, "style": style, "explode": explode, "schema": sch}
+	}
+	ok := J{"204": J{"description": "d"}}
+	doc := J{"openapi": "3.0.3", "info": J{"title": "t", "version": "1"}, "paths": J{
+		"/m1/{user_id}":        J{"get": J{"operationId": "m1", "parameters": []interface{}{p("user_id", "path", "matrix", false, str)}, "responses": ok}},
+		"/m2/{item-ids}":       J{"get": J{"operationId": "m2", "parameters": []interface{}{p("item-ids", "path", "matrix", true, arr)}, "responses": ok}},
+		"/m3/{item-ids}":       J{"get": J{"operationId": "m3", "parameters": []interface{}{p("item-ids", "path", "matrix", false, arr)}, "responses": ok}},
+		"/m4/{type}":           J{"get": J{"operationId": "m4", "parameters": []interface{}{p("type", "path", "matrix", false, str)}, "responses": ok}},
+		"/m5/{user_id}/{type}": J{"get": J{"operationId": "m5", "parameters": []interface{}{p("type", "path", "label", false, str), p("user_id", "path", "matrix", true, str)}, "responses": ok}},
+		"/q1":                  J{"get": J{"operationId": "q1", "parameters": []interface{}{p("user_id", "query", "form", true, str), p("item-ids", "query", "form", true, arr), p("type", "query", "form", false, arr)}, "responses": ok}},
+		"/c1":                  J{"get": J{"operationId": "c1", "parameters": []interface{}{p("user_id", "cookie", "form", false, str)}, "responses": ok}},
+	}}
+	type cse struct {
+		fn      string
+		args    []interface{}
+		url     string // the request line OAS prescribes
+		cookie  string
+		handler J // what the handler receives, under the Go argument names (arrays only: the pinned runtime leaves the
+		// prefix on label/matrix primitives, recorded under C04)
+	}
+	cases := []cse{
+		{"NewM1Request", []interface{}{"http://h", "u5"}, "http://h/m1/;user_id=u5", "", nil},
+		{"NewM2Request", []interface{}{"http://h", []int{3, 4}}, "http://h/m2/;item-ids=3;item-ids=4", "", J{"itemIds": []int{3, 4}}},
+		{"NewM3Request", []interface{}{"http://h", []int{3, 4}}, "http://h/m3/;item-ids=3,4", "", J{"itemIds": []int{3, 4}}},
+		{"NewM4Request", []interface{}{"http://h", "blue"}, "http://h/m4/;type=blue", "", nil},
+		{"NewM5Request", []interface{}{"http://h", "u5", "blue"}, "http://h/m5/;user_id=u5/.blue", "", nil},
+		{"NewQ1Request", []interface{}{"http://h", J{"user_id": "u5", "item-ids": []int{3, 4}, "type": []int{7, 8}}}, "http://h/q1?item-ids=3&item-ids=4&type=7%2C8&user_id=u5", "", nil},
+		{"NewC1Request", []interface{}{"http://h", J{"user_id": "u5"}}, "http://h/c1", "user_id=u5", nil},
+	}
+	var cfg codegen.Configuration
+	cfg.Generate.Models, cfg.Generate.Client = true, true
+	pk := kit.Add(&RunPkg{Name: "c05named", FW: "chi", Doc: doc, Cfg: cfg})
+	kit.Prepare()
+	if pk.GenErr != nil || pk.BuildErr != "" {
+		ctx.Res.Violate("named:not-built", fmt.Sprintf("a document with parameters called user_id, item-ids, type is not generated or does not build: %v %s", pk.GenErr, firstLines(pk.BuildErr, 3)), J{"doc": doc})
+		return nil
+	}
+	for _, c := range cases {
+		resp, err := pk.Call(J{"do": "roundtrip", "fn": c.fn, "args": c.args, "opt": J{"stop": -1, "sstop": -1}})
+		if err != nil {
+			return err
+		}
+		ctx.Res.Eval(J{"named": c.fn}, true)
+		ctx.Res.Count("named-parameter")
+		replay := J{"doc": doc, "builder": c.fn, "args": c.args, "resp": resp}
+		req, _ := resp["req"].(map[string]interface{})
+		u, _ := req["url"].(string)
+		// queries are compared after sorting the pairs (Values.Encode sorts by key already) and with "," either literal or escaped
+		norm := func(x string) string { return strings.ReplaceAll(x, "%2C", ",") }
+		if norm(u) != norm(c.url) {
+			ctx.Res.Violate("named:client-wire:"+c.fn, fmt.Sprintf("%s%v builds %q, OAS prescribes %q (the name on the wire is the parameter's name in the document)", c.fn, c.args[1:], u, c.url), replay)
+			continue
+		}
+		if c.cookie != "" {
+			got := ""
+			hs, _ := req["headers"].([]interface{})
+			for _, h := range hs {
+				if kv, _ := h.([]interface{}); len(kv) == 2 && strings.EqualFold(fmt.Sprint(kv[0]), "Cookie") {
+					got = fmt.Sprint(kv[1])
+				}
+			}
+			if got != c.cookie {
+				ctx.Res.Violate("named:client-wire:"+c.fn, fmt.Sprintf("%s builds the cookie %q, OAS prescribes %q", c.fn, got, c.cookie), replay)
+				continue
+			}
+		}
+		served, _ := resp["served"].(map[string]interface{})
+		call, one := firstCall(served)
+		if !one {
+			ctx.Res.Violate("named:server:"+c.fn, fmt.Sprintf("the request %q built by %s does not reach the handler (%v)", u, c.fn, resp["err"]), replay)
+			continue
+		}
+		if c.handler != nil {
+			got := J{}
+			if args, _ := call["args"].(map[string]interface{}); args != nil {
+				for k, v := range args {
+					got[k] = v
+				}
+			}
+			if Canon(jsonRoundTrip(got)) != Canon(jsonRoundTrip(c.handler)) {
+				ctx.Res.Violate("named:server:"+c.fn, fmt.Sprintf("%s%v: the handler receives %s, sent %s", c.fn, c.args[1:], Canon(got), Canon(c.handler)), replay)
+			}
+		}
+	}
+	return nil
 }
